@@ -1,1 +1,162 @@
-// placeholder
+//! C13 — the codec's checksum functions equal the RFC 1071 one's-complement checksum over
+//! (pseudo-header +) data with the checksum field taken as zero.
+//!
+//! Formulation (DESIGN 1.1): the harness computes `!fold(sum)` with a plain RFC 1071 word loop
+//! over a copy of the data in which the checksum field is zeroed, and compares it with the codec's
+//! result for symbolic content AND symbolic length; the separate one-variable lemma
+//! `fold(s + !fold(s)) == 0xFFFF` turns that into "the datagram with the checksum inserted sums
+//! to 0xFFFF".
+use std::net::{Ipv4Addr, Ipv6Addr};
+use trippy_packet::checksum::{
+    icmp_ipv4_checksum, icmp_ipv6_checksum, ipv4_header_checksum, tcp_ipv4_checksum, udp_ipv4_checksum,
+    udp_ipv6_checksum,
+};
+
+/// Buffer bound: 64 in the quick tier, 256 in the thorough tier (VERIF_THOROUGH set by check.py).
+pub const N: usize = if option_env!("VERIF_THOROUGH").is_some() { 256 } else { 64 };
+
+/// RFC 1071 end-around-carry fold.
+pub fn fold(mut s: u64) -> u16 {
+    let mut k = 0;
+    while k < 4 {
+        s = (s & 0xffff) + (s >> 16);
+        k += 1;
+    }
+    s as u16
+}
+
+/// Reference: sum of big-endian 16-bit words of data[..len] (odd tail padded with zero), with the
+/// 16-bit word at byte offset `ck_off` read as zero.
+pub fn ref_sum(data: &[u8; N], len: usize, ck_off: usize) -> u64 {
+    let mut s = 0u64;
+    let mut i = 0;
+    while i < N {
+        if i < len {
+            let hi = if i == ck_off { 0 } else { data[i] };
+            let lo = if i + 1 < len { if i == ck_off { 0 } else { data[i + 1] } } else { 0 };
+            s += (u64::from(hi) << 8) | u64::from(lo);
+        }
+        i += 2;
+    }
+    s
+}
+
+fn v4sum(a: Ipv4Addr) -> u64 {
+    let o = a.octets();
+    ((u64::from(o[0]) << 8) | u64::from(o[1])) + ((u64::from(o[2]) << 8) | u64::from(o[3]))
+}
+
+fn v6sum(a: Ipv6Addr) -> u64 {
+    let o = a.octets();
+    let mut s = 0u64;
+    let mut i = 0;
+    while i < 16 {
+        s += (u64::from(o[i]) << 8) | u64::from(o[i + 1]);
+        i += 2;
+    }
+    s
+}
+
+fn any_len(min: usize) -> usize {
+    let len: usize = kani::any();
+    kani::assume(len >= min && len <= N);
+    len
+}
+
+/// Lemma: for every 32-bit partial sum s, inserting c = !fold(s) makes the total fold to 0xFFFF.
+#[kani::proof]
+#[kani::unwind(6)]
+fn c13_fold_lemma() {
+    let s: u32 = kani::any();
+    let c = !fold(u64::from(s));
+    assert!(fold(u64::from(s) + u64::from(c)) == 0xffff);
+}
+
+#[kani::proof]
+#[kani::unwind(132)]
+fn c13_icmp_ipv4() {
+    let data: [u8; N] = kani::any();
+    let len = any_len(8);
+    let got = icmp_ipv4_checksum(&data[..len]);
+    let want = !fold(ref_sum(&data, len, 2));
+    assert!(got == want);
+    kani::cover!(len % 2 == 1, "odd length");
+    kani::cover!(len == N, "maximum length");
+}
+
+#[kani::proof]
+#[kani::unwind(132)]
+fn c13_ipv4_header() {
+    let data: [u8; N] = kani::any();
+    let len = any_len(20);
+    kani::assume(len % 4 == 0 && len <= 60);
+    let got = ipv4_header_checksum(&data[..len]);
+    let want = !fold(ref_sum(&data, len, 10));
+    assert!(got == want);
+    kani::cover!(len == 60, "maximum header");
+}
+
+#[kani::proof]
+#[kani::unwind(132)]
+fn c13_udp_ipv4() {
+    let data: [u8; N] = kani::any();
+    let len = any_len(8);
+    let src = Ipv4Addr::from(kani::any::<u32>());
+    let dst = Ipv4Addr::from(kani::any::<u32>());
+    let got = udp_ipv4_checksum(&data[..len], src, dst);
+    let want = !fold(v4sum(src) + v4sum(dst) + 17 + len as u64 + ref_sum(&data, len, 6));
+    assert!(got == want);
+    kani::cover!(len % 2 == 1, "odd length");
+    kani::cover!(len == N, "maximum length");
+}
+
+#[kani::proof]
+#[kani::unwind(132)]
+fn c13_tcp_ipv4() {
+    let data: [u8; N] = kani::any();
+    let len = any_len(20);
+    let src = Ipv4Addr::from(kani::any::<u32>());
+    let dst = Ipv4Addr::from(kani::any::<u32>());
+    let got = tcp_ipv4_checksum(&data[..len], src, dst);
+    let want = !fold(v4sum(src) + v4sum(dst) + 6 + len as u64 + ref_sum(&data, len, 16));
+    assert!(got == want);
+    kani::cover!(len % 2 == 1, "odd length");
+}
+
+#[kani::proof]
+#[kani::unwind(132)]
+fn c13_udp_ipv6() {
+    let data: [u8; N] = kani::any();
+    let len = any_len(8);
+    let src = Ipv6Addr::from(kani::any::<u128>());
+    let dst = Ipv6Addr::from(kani::any::<u128>());
+    let got = udp_ipv6_checksum(&data[..len], src, dst);
+    let want = !fold(v6sum(src) + v6sum(dst) + 17 + len as u64 + ref_sum(&data, len, 6));
+    assert!(got == want);
+    kani::cover!(len % 2 == 1, "odd length");
+}
+
+#[kani::proof]
+#[kani::unwind(132)]
+fn c13_icmp_ipv6() {
+    let data: [u8; N] = kani::any();
+    let len = any_len(8);
+    let src = Ipv6Addr::from(kani::any::<u128>());
+    let dst = Ipv6Addr::from(kani::any::<u128>());
+    let got = icmp_ipv6_checksum(&data[..len], src, dst);
+    let want = !fold(v6sum(src) + v6sum(dst) + 58 + len as u64 + ref_sum(&data, len, 2));
+    assert!(got == want);
+    kani::cover!(len % 2 == 1, "odd length");
+}
+
+/// The carry-maximising corner: all-0xFF content at every length (concrete content, symbolic length).
+#[kani::proof]
+#[kani::unwind(132)]
+fn c13_all_ones_content() {
+    let data = [0xffu8; N];
+    let len = any_len(8);
+    let src = Ipv4Addr::new(255, 255, 255, 255);
+    let got = udp_ipv4_checksum(&data[..len], src, src);
+    let want = !fold(v4sum(src) * 2 + 17 + len as u64 + ref_sum(&data, len, 6));
+    assert!(got == want);
+}
